@@ -153,3 +153,66 @@ theorem terms_denote {s : St} (hc : Canon s) {i : UId} (hi : i < s.units.length)
         omega
 
 end Measured
+
+namespace Measured
+open St UExpr
+
+/-- the rebuilt expression only mentions existing units and normalised prefixes -/
+theorem foldl_refs (rest : List (Pfx × UId × Int)) :
+    ∀ (acc : UExpr), ((rest.foldl (fun a x => UExpr.mul a (termExpr x)) acc).refs = acc.refs ++ rest.flatMap (fun x => (termExpr x).refs)) ∧
+      ((rest.foldl (fun a x => UExpr.mul a (termExpr x)) acc).pfxs = acc.pfxs ++ rest.flatMap (fun x => (termExpr x).pfxs)) := by
+  induction rest with
+  | nil => intro acc; simp
+  | cons x rest ih =>
+    intro acc
+    simp only [List.foldl_cons, List.flatMap_cons]
+    obtain ⟨h1, h2⟩ := ih (UExpr.mul acc (termExpr x))
+    exact ⟨by rw [h1]; simp [UExpr.refs, List.append_assoc], by rw [h2]; simp [UExpr.pfxs, List.append_assoc]⟩
+
+theorem termExpr_refs (t : Pfx × UId × Int) : (termExpr t).refs = [t.2.1] := by
+  unfold termExpr; split <;> simp [UExpr.refs]
+
+theorem termExpr_pfxs (t : Pfx × UId × Int) : ∀ p ∈ (termExpr t).pfxs, p = t.1 := by
+  unfold termExpr; split <;> simp [UExpr.pfxs]
+
+theorem termsExpr_ok {s : St} (hw : WF s) (hc : Canon s) {i : UId} (hi : i < s.units.length)
+    {ts : List (Pfx × UId × Int)} (ht : unitTermList (s.unit! i) = .ok ts) : ExprOK s (termsExpr s.one ts) := by
+  unfold unitTermList at ht
+  cases hfs : (s.unit! i).factors with
+  | nil => rw [hfs] at ht; cases ht
+  | cons f0 rest =>
+    rw [hfs] at ht
+    simp only at ht
+    cases hroot : (s.unit! i).pfx.root f0.2 with
+    | error e => rw [hroot] at ht; cases ht
+    | ok p0 =>
+      rw [hroot] at ht
+      injection ht with ht
+      subst ht
+      have hmem := St.unit!_mem hi
+      have hval := hw.facValid _ hmem
+      have hp0 : p0.Normal := Pfx.root_normal (hc.pfxNormal _ hmem) hroot
+      obtain ⟨r1, r2⟩ := foldl_refs (rest.map (fun fe => (Pfx.identity, fe.1, fe.2))) (termExpr (p0, f0.1, f0.2))
+      constructor
+      · intro r hr
+        simp only [termsExpr, UExpr.refs, List.mem_append, List.mem_singleton] at hr
+        rcases hr with hr | hr
+        · rw [r1] at hr
+          rcases List.mem_append.mp hr with hr | hr
+          · rw [termExpr_refs] at hr; simp at hr; subst hr
+            exact hval f0 (by rw [hfs]; exact List.mem_cons_self)
+          · obtain ⟨x, hx, hrx⟩ := List.mem_flatMap.mp hr
+            rw [termExpr_refs] at hrx; simp at hrx; subst hrx
+            obtain ⟨fe, hfe, rfl⟩ := List.mem_map.mp hx
+            exact hval fe (by rw [hfs]; exact List.mem_cons_of_mem _ hfe)
+        · subst hr; exact hw.oneLt
+      · intro p hp
+        simp only [termsExpr, UExpr.pfxs, List.append_nil] at hp
+        rw [r2] at hp
+        rcases List.mem_append.mp hp with hp | hp
+        · rw [termExpr_pfxs _ p hp]; exact hp0
+        · obtain ⟨x, hx, hpx⟩ := List.mem_flatMap.mp hp
+          obtain ⟨fe, _, rfl⟩ := List.mem_map.mp hx
+          rw [termExpr_pfxs _ p hpx]; exact Pfx.normal_identity
+
+end Measured
